@@ -49,6 +49,7 @@ def run_tlc(module, cfg=None, env=None, workers='auto', timeout=600, extra=None,
                 res.timeout = True
         finally:
             res.wall = time.time() - t0
+        pending = None
         for line in res.out.splitlines():
             m = re.match(r'^(\d+) states generated, (\d+) distinct states found', line)
             if m:
@@ -56,8 +57,7 @@ def run_tlc(module, cfg=None, env=None, workers='auto', timeout=600, extra=None,
             m = re.match(r'^The depth of the complete state graph search is (\d+)', line)
             if m:
                 res.depth = int(m.group(1))
-            if line.startswith('<<') and line.rstrip().endswith('>>'):
-                res.prints.append(line.strip())
+            pending = _tuple_lines(pending, line, res.prints)
             if line.startswith('Error:'):
                 res.errors.append(line)
             m = re.match(r'^Error: Invariant (\S+) is violated', line)
@@ -76,6 +76,43 @@ def run_tlc(module, cfg=None, env=None, workers='auto', timeout=600, extra=None,
         return res
     finally:
         shutil.rmtree(scratch, ignore_errors=True)
+
+def _depth(text):
+    """nesting depth of << >> in text, ignoring string literals"""
+    d = 0; i = 0; instr = False
+    while i < len(text):
+        c = text[i]
+        if instr:
+            if c == '\\':
+                i += 1
+            elif c == '"':
+                instr = False
+        elif c == '"':
+            instr = True
+        elif text.startswith('<<', i):
+            d += 1; i += 1
+        elif text.startswith('>>', i):
+            d -= 1; i += 1
+        i += 1
+    return d
+
+def _tuple_lines(pending, line, prints):
+    """Collects the tuples TLC prints (PrintT). TLC pretty-prints a value longer than 80 columns over several lines
+    ('<< "L1",' / '   "C02",' / ... / '   119 >>'): such a block is joined and brought to the compact one-line form."""
+    if pending is None:
+        if not line.startswith('<<'):
+            return None
+        pending = line.strip()
+    else:
+        pending += ' ' + line.strip()
+    if _depth(pending) > 0:
+        return pending if len(pending) < 10**6 else None
+    t = pending
+    if t.endswith('>>'):
+        if t.startswith('<< '):
+            t = re.sub(r'<< ', '<<', re.sub(r' >>', '>>', t))
+        prints.append(t)
+    return None
 
 def filtered(out, n=60):
     keep = []
